@@ -59,6 +59,8 @@ structure TxS where
 structure St where
   committed : DBS := Spec.empty
   pagesize : Nat := 1024
+  /-- hash of the file's bytes as last reported, valid until the next successful commit -/
+  lastHash : Option String := none
   txs : List TxS := []
   handles : List Handle := []
 
@@ -114,11 +116,16 @@ def stepOp (s : St) (f : List String) : Step :=
     match s.tx? (num 1) with
     | none => ⟨s, ["?unknown-tx"]⟩
     | some tx =>
-      if tx.writable then ⟨{ (s.dropTx tx.id) with committed := tx.db }, ["ok"]⟩
+      if tx.writable then ⟨{ (s.dropTx tx.id) with committed := tx.db, lastHash := none }, ["ok"]⟩
       else ⟨s.dropTx tx.id, ["err:ReadOnlyTx"]⟩
   | some "drop" => ⟨s.dropTx (num 1), ["ok"]⟩
   | some "dbcheck" => ⟨s, ["ok"]⟩
   | some "file" => ⟨s, []⟩
+  | some "fhash" =>
+    -- C06: between two commits nothing may change the file's bytes
+    match s.lastHash with
+    | some h => ⟨s, [h]⟩
+    | none => ⟨s, []⟩
   | some "dump" =>
     match s.tx? (num 1) with
     | none => ⟨s, ["?unknown-tx"]⟩
